@@ -43,8 +43,11 @@ def rand_desc(rng):
                 u["pn_omitted"] = rng.random() < 0.5
                 u["w"] = rng.choice([None, 0, 1, 4])
                 u["etp"] = rng.random() < 0.5 and mv_now in (None, 3)
-                u["who"] = rng.choice([None, None, 0, 1, 4]) if u["etp"] else None
-                u["dho"] = rng.choice([None, None, 0, 1, 2]) if u["etp"] else None
+                # flags and values are independent: a set flag whose value is omitted takes the documented default
+                u["aif"] = rng.choice([None, False, True, True]) if u["etp"] else None
+                u["who"] = rng.choice([None, 0, 1, 4]) if u["aif"] else None
+                u["af"] = rng.choice([None, False, True, True]) if u["etp"] else None
+                u["dho"] = rng.choice([None, 0, 1, 2]) if u["af"] else None
             # explicit offsets: arbitrary values, except that padding/aux keep a consistent next offset
             if u["kind"] == "Z":
                 u["next"] = rng.choice([None, None, "true"])
@@ -113,11 +116,13 @@ def build_stream(desc):
                     tp["wavelet_index"] = u["w"]
                 if u["etp"]:
                     etp = ExtendedTransformParameters()
+                    if u["aif"] is not None:
+                        etp["asym_transform_index_flag"] = u["aif"]
                     if u["who"] is not None:
-                        etp["asym_transform_index_flag"] = True
                         etp["wavelet_index_ho"] = u["who"]
+                    if u["af"] is not None:
+                        etp["asym_transform_flag"] = u["af"]
                     if u["dho"] is not None:
-                        etp["asym_transform_flag"] = True
                         etp["dwt_depth_ho"] = u["dho"]
                     tp["extended_transform_parameters"] = etp
                 if u["kind"] == "P":
@@ -198,6 +203,50 @@ def default_wavelet():
     return int(vc2_default_values_with_auto[TransformParameters]["wavelet_index"])
 
 
+def documented_default(fd_name, key):
+    """the serialiser's documented default of an omitted field (bitstream/vc2.py's table, not autofill's)"""
+    import vc2_conformance.bitstream as B
+    from vc2_conformance.bitstream.vc2_fixeddicts import vc2_default_values
+
+    return int(vc2_default_values[getattr(B, fd_name)][key])
+
+
+def resolved_ho(u):
+    """-> (wavelet_index_ho or None when the index flag is not set, dwt_depth_ho or None when the flag is not set)"""
+    who = dho = None
+    if u.get("etp"):
+        if u["aif"]:
+            who = u["who"] if u["who"] is not None else documented_default("ExtendedTransformParameters", "wavelet_index_ho")
+        if u["af"]:
+            dho = u["dho"] if u["dho"] is not None else documented_default("ExtendedTransformParameters", "dwt_depth_ho")
+    return who, dho
+
+
+def required_version(units):
+    """the minimum major version the features of one sequence description require (10.4.1 / 11.2.2 / 12.4.4.1),
+    written out independently of version_constraints.py and of the autofill code"""
+    v = 1
+    for u in units:
+        if u["code"] in (0xCC, 0xEC):
+            v = max(v, 3)
+        if u["kind"] == "H":
+            if u["profile"] == 3:
+                v = max(v, 2)
+            for f, top in (("fr", 11), ("sr", 4), ("cs", 4)):
+                if u[f] is not None and u[f] > top:
+                    v = 3
+            if u["cs"] == 0:
+                for f in ("cp", "cm", "tf"):
+                    if u[f] is not None and u[f] > 3:
+                        v = 3
+        if u["kind"] == "P" or (u["kind"] == "F" and (u["sc"] or 0) == 0):
+            w = default_wavelet() if u["w"] is None else u["w"]
+            who, dho = resolved_ho(u)
+            if (dho or 0) != 0 or (who is not None and who != w):
+                v = 3
+    return v
+
+
 def fmt(v):
     return "-" if v is None else str(v)
 
@@ -217,7 +266,7 @@ def model_line(desc, lens):
                 if u["kind"] == "F":
                     w.append("sc=%s" % ("A" if u["sc"] is None else u["sc"]))
                 if u["kind"] == "P" or (u["sc"] or 0) == 0:
-                    w += ["w=%d" % (default_wavelet() if u["w"] is None else u["w"]), "who=%s" % fmt(u["who"]), "dho=%s" % fmt(u["dho"]), "etp=%d" % (1 if u["etp"] else 0)]
+                    w += ["w=%d" % (default_wavelet() if u["w"] is None else u["w"]), "who=%s" % fmt(resolved_ho(u)[0]), "dho=%s" % fmt(resolved_ho(u)[1]), "etp=%d" % (1 if u["etp"] else 0)]
             if u["kind"] == "H":
                 w += ["pr=%d" % u["profile"], "mv=%s" % ("A" if u["mv"] is None else u["mv"])]
                 for f in ("fr", "sr", "cs", "cp", "cm", "tf"):
@@ -237,6 +286,7 @@ def violates(desc):
     obs, lens, data = run_real(desc)
     for units, row, lrow in zip(desc, obs, lens):
         last = M32 - 1
+        need = required_version(units)
         for i, (u, (pn, nxt, prv, mv, etp), ln) in enumerate(zip(units, row, lrow)):
             enxt = 13 + u["data"] if u["next"] == "true" else u["next"]
             if enxt is not None and nxt != enxt:
@@ -257,6 +307,15 @@ def violates(desc):
                 last = pn
             if u["kind"] == "H" and u["mv"] is not None and mv != u["mv"]:
                 return "explicit major_version %s became %s" % (u["mv"], mv)
+            if u["kind"] == "H" and u["mv"] is None and mv != need:
+                return "automatic major_version %s, but the features of the sequence require exactly %s" % (mv, need)
+            if etp == 0 and u.get("etp"):
+                # removal is allowed only for parameters that select nothing asymmetric (the documented design:
+                # below version 3 they cannot be coded at all); losing a set flag with an effect is a lost explicit value
+                who, dho = resolved_ho(u)
+                w = default_wavelet() if u["w"] is None else u["w"]
+                if (who is not None and who != w) or (dho or 0) != 0:
+                    return "extended transform parameters that select an asymmetric transform were removed (unit %d)" % i
     return None
 
 
